@@ -65,7 +65,26 @@ def structure(m):
                 directives=dict(sorted((k, v) for k, v in m.directives.items())), keywords=tuple(sorted(m.keywords)))
 
 
-def check(gtext, inputs, route='compile', antlr=None):
+PRE = [(), (), (), ('lean',), ('railroads',), ('pretty', 'lean'), ('str',), ('lean-rule',), ('lean', 'pretty', 'lean')]
+
+
+def render_before(m, pre):
+    """other renderings of the same model object asked for before its pretty() text is taken: pretty() is a function of the model only"""
+    for what in pre:
+        if what == 'lean':
+            m.pretty_lean()
+        elif what == 'pretty':
+            m.pretty()
+        elif what == 'railroads':
+            m.railroads()
+        elif what == 'str':
+            str(m)
+        elif what == 'lean-rule':
+            for r in m.rules[:2]:
+                r.pretty_lean()
+
+
+def check(gtext, inputs, route='compile', antlr=None, pre=()):
     """returns (detail|None, info)"""
     import tatsu
     info = {}
@@ -85,6 +104,11 @@ def check(gtext, inputs, route='compile', antlr=None):
             except Exception as e:
                 info['skip'] = f'source model: {type(e).__name__}: {str(e)[:100]}'
                 return None, info
+            try:
+                render_before(m, pre)
+            except Exception as e:
+                info['prenote'] = f'rendering before: {type(e).__name__}: {str(e)[:100]}'     # (railroads() is judged on its own below)
+                pre = ()
             try:
                 p1 = m.pretty()
             except Exception as e:
@@ -107,6 +131,7 @@ def check(gtext, inputs, route='compile', antlr=None):
                                 pretty=p1[:600]), info
                 info['accepted'] = info.get('accepted', 0) + (a[0] == 'ok')
             try:
+                render_before(m2, pre)
                 p2 = m2.pretty()
             except Exception as e:
                 return dict(bucket=f'pretty2-raises:{type(e).__name__}', oracle='pretty() of the recompiled model returns', observed=str(e)[:300], pretty=p1[:600]), info
@@ -166,11 +191,11 @@ def decorate(rnd, rules):
     for d in rd:
         r = rnd.random()
         if r < 0.2:
-            d['params'] = tuple(rnd.choice([('Tp',), ('Tp', 'x'), (7,), ('a b',), ('Tp::Base',), ("it's",), ('True',), ('1',), ('2d',), ('None', 'x'), (True,), (2.5,), ('x', '007')]))
+            d['params'] = tuple(rnd.choice([('Tp',), ('Tp', 'x'), (7,), ('a b',), ('Tp::Base',), ("it's",), ('True',), ('1',), ('2d',), ('None', 'x'), (True,), (2.5,), ('x', '007'), ('Tp', 'pkg::Node'), ('x', 'a::b::c', 'y'), ('pkg::Node', 'pkg::Node')]))
             if any(not (isinstance(p, str) and p.isidentifier()) for p in d['params']):
                 sensitive[0] = True
             if rnd.random() < 0.4:
-                d['kwparams'] = {'k': rnd.choice(['v', 3, 'a b'])}
+                d['kwparams'] = {'k': rnd.choice(['v', 3, 'a b', 'pkg::Node', 'True'])}
         if rnd.random() < 0.12:
             d['decorators'] = rnd.choice([('nomemo',), ('name',), ('nostak',), ('nomemo', 'nostak'), ('name', 'nomemo'), ('nostak', 'name', 'nomemo')])
     if len(rd) >= 2 and rnd.random() < 0.12:
@@ -260,9 +285,10 @@ def run_shard(sh, n):
                 lx = gen.near_miss(rnd, lx)
             inputs.append(gen.layout(rnd, lx, rnd.choice(['base', 'tight'])))
         route = 'json' if rnd.random() < 0.25 else 'compile'
-        d, info = check(gtext, inputs, route)
+        pre = rnd.choice(PRE)
+        d, info = check(gtext, inputs, route, pre=pre)
         types = {e[0] for d_ in rd for e in walk(d_['exp'])}
-        cls = [f'route:{route}'] + [f'node:{t}' for t in types & {'meta', 'alert', 'eol', 'const', 'skipto', 'join', 'cut'}]
+        cls = [f'route:{route}'] + ([f'rendered before pretty(): {"+".join(pre)}'] if pre else []) + [f'node:{t}' for t in types & {'meta', 'alert', 'eol', 'const', 'skipto', 'join', 'cut'}]
         cls += [f'directive:{x[0]}' for x in directives]
         if keywords:
             cls.append('keywords')
@@ -271,7 +297,7 @@ def run_shard(sh, n):
             return
         sh.case(gtext, sensitive, cls, sample=dict(grammar=gtext, route=route, inputs=inputs[:2]))
         if d is not None:
-            sh.fail(d['bucket'], dict(route=route, rd=rd, directives=directives, keywords=keywords, inputs=inputs), d)
+            sh.fail(d['bucket'], dict(route=route, rd=rd, directives=directives, keywords=keywords, inputs=inputs, pre=list(pre)), d)
     hyp_run(sh, gen.rnds(), body, n)
 
 
@@ -293,7 +319,7 @@ def replay(case):
         return d
     rd = _norm_rd(case['rd'])
     gtext = grammar_text(rd, [tuple(x) for x in case.get('directives', [])], case.get('keywords', []))
-    d, _ = check(gtext, case['inputs'], case.get('route', 'compile'))
+    d, _ = check(gtext, case['inputs'], case.get('route', 'compile'), pre=tuple(case.get('pre', ())))
     return d
 
 
